@@ -5,6 +5,7 @@ import Sftp.Generated.ListingCfg
 import Sftp.Generated.TransferFacts
 import Sftp.Generated.DispatchCfg
 import Sftp.Generated.CompositeCfg
+import Sftp.Generated.ClientChanCfg
 /-
   `cur.cfg <model>` prints, in the token syntax of the corresponding driver, the configuration the
   translator REGENERATED from the source on this run, so that the harness replays schedules in the
@@ -18,6 +19,7 @@ import Sftp.Generated.CompositeCfg
     cur.cfg c16os  →  five bits + " " + batch    (c16.oslist)
     cur.cfg dispReadAt|dispWriteAt|dispReadFrom|dispWriteTo → nine bits (disp.runcfg)
     cur.cfg composite → <removePkt><rmdirPkt><15 bits><maFileErr>:<rmFallbackOn>   (c05c.*)
+    cur.cfg chan   →  six bits   (chan.run: fresh putAfterRecv abandonedNotReturned reuseSeq shared idsDistinct)
     cur.cfg xfer   →  wtm,rfm           (the two source facts of the xfer.* cfg tuple)
 -/
 namespace Sftp.Driver.Cur
@@ -57,7 +59,13 @@ def disp (c : Sftp.Dispatch.DispatchCfg) : String :=
   b c.chain ++ b c.bounded ++ b c.sendFirst ++ b c.inOrder ++ b c.cancelArm ++ b c.cancelArmReturns ++
   b c.noOtherExit ++ b c.cancelByReducerOnly ++ b c.awaitWorkers
 
+def chan : String :=
+  let c := G.clientChanCfg
+  b c.freshPerSyncCall ++ b c.poolPutOnlyAfterRecv ++ b c.abandonedNotReturned ++ b c.reuseOnlySequential ++
+  b c.sharedAcrossCallers ++ b c.idsDistinctInFlight
+
 def cfgOp : List String → String
+  | ["chan"] => chan
   | ["dispReadAt"] => disp G.dispReadAt
   | ["dispWriteAt"] => disp G.dispWriteAt
   | ["dispReadFrom"] => disp G.dispReadFrom
